@@ -2,6 +2,7 @@
 #define FRG_FORMATTING_HPP
 
 #include <stdarg.h>
+#include <limits.h>
 #include <cstddef>
 #include <stdint.h>
 #include <frg/macros.hpp>
@@ -585,6 +586,9 @@ namespace detail_ {
 
 					case modes::width:
 						if (isdigit(c)) {
+							// A width that does not fit an int makes the specifier malformed.
+							if (fo.minimum_width > (INT_MAX - (c - '0')) / 10)
+								return false;
 							fo.minimum_width *= 10;
 							fo.minimum_width += spec[i] - '0';
 						} else {
